@@ -10,6 +10,7 @@
 package poolsan
 
 import (
+	"bytes"
 	"fmt"
 	"math/bits"
 	"runtime"
@@ -83,9 +84,7 @@ func get(size int) *[]byte {
 	}
 	c := capFor(size)
 	b := make([]byte, c)
-	for i := range b {
-		b[i] = fillByte
-	}
+	memset(b, fillByte)
 	b = b[:size]
 	bp := &b
 	Gets.Add(1)
@@ -136,9 +135,7 @@ func release(bp *[]byte) {
 		report("bad-cap", fmt.Sprintf("released buffer has cap %d (the real pool panics on this)", c))
 	}
 	full := (*bp)[:c]
-	for i := range full {
-		full[i] = poisonByte
-	}
+	memset(full, poisonByte)
 	var evict []entry
 	mu.Lock()
 	released[bp] = true
@@ -164,11 +161,34 @@ func checkPoison(e entry) {
 		report("write-after-release", fmt.Sprintf("slice header of released buffer %p changed (cap %d -> %d)", e.bp, e.size, cap(*e.bp)))
 		return
 	}
-	for i, b := range full {
-		if b != poisonByte {
-			report("write-after-release", fmt.Sprintf("released buffer %p modified at offset %d (0x%02x)", e.bp, i, b))
-			return
+	for off := 0; off < len(full); off += len(poisonBlock) {
+		chunk := full[off:]
+		if len(chunk) > len(poisonBlock) {
+			chunk = chunk[:len(poisonBlock)]
 		}
+		if bytes.Equal(chunk, poisonBlock[:len(chunk)]) {
+			continue
+		}
+		for i, b := range chunk {
+			if b != poisonByte {
+				report("write-after-release", fmt.Sprintf("released buffer %p modified at offset %d (0x%02x)", e.bp, off+i, b))
+				return
+			}
+		}
+	}
+}
+
+var poisonBlock = bytes.Repeat([]byte{poisonByte}, 4096)
+
+// memset fills b with c using doubling copies (one instrumented range access
+// per copy instead of one per byte under the race detector).
+func memset(b []byte, c byte) {
+	if len(b) == 0 {
+		return
+	}
+	b[0] = c
+	for i := 1; i < len(b); i *= 2 {
+		copy(b[i:], b[:i])
 	}
 }
 
